@@ -495,7 +495,9 @@ def write_evidence(pid, tier, seed, fams, results, smt_results, skipped, violati
                            'solver_s': r['parsed']['solver_s'], 'wall_s': r['wall_s'],
                            'covers': r.get('covers', {}), 'note': r['reason']} for r in rs],
         })
-    level = 'proof' if (smt_results and not results) else 'model_checking'
+    # C13: the claim is carried by the unbounded SMT proofs; its Kani harnesses (commutation on a
+    # grid) are bounded and listed as such in coverage.families
+    level = 'proof' if (smt_results and (not results or pid in ('C13',))) else 'model_checking'
     ev = {
         'property_id': pid, 'tier': tier, 'seed': seed, 'level': level,
         'coverage': {
